@@ -21,6 +21,7 @@
 
 #include <algorithm>
 #include <array>
+#include <cstdint>
 #include <cstring>
 #include <random>
 #include <sstream>
@@ -150,8 +151,11 @@ int Util::parseSizeOrPercent(
     int64_t total) {
   try {
     if (input.size() > 0 && input.at(input.size() - 1) == '%') {
-      int64_t pct = std::stoi(input.substr(0, input.size() - 1));
-      if (pct < 0 || pct > 100) {
+      const auto pct_str = input.substr(0, input.size() - 1);
+      size_t pct_end = 0;
+      int64_t pct = std::stoi(pct_str, &pct_end);
+      // "50abc%" and "1.%" are not percentages
+      if (pct_end != pct_str.size() || pct < 0 || pct > 100) {
         return -1;
       }
 
@@ -164,7 +168,11 @@ int Util::parseSizeOrPercent(
       // compat - a bare number is interpreted as megabytes
       v = std::stoll(input, &end_pos);
       if (end_pos == input.length()) {
-        *output = v << 20;
+        // that many megabytes must fit into the result
+        if (v > (INT64_MAX >> 20) || v < -(INT64_MAX >> 20)) {
+          return -1;
+        }
+        *output = v * (1LL << 20);
         return 0;
       }
 
